@@ -8,11 +8,12 @@
      execute_chooser   L [L all; L grp_table; L pk_table; L val_table]   (tables of shard lists)
      init              per shard 0..n-1 the rows L [I pk; I grp; I val]
      ops               L [I 0; pk; grp; val; pre] add (pre = -1: no preset token)
-                       L [I 1; o; g; v] set | L [I 2] flush | L [I 3] commit | L [I 4; o] delete
+                       L [I 1; o; g; v] set | L [I 2] flush | L [I 3] commit | L [I 4; L [o ..]] delete all in one flush
                        L [I 5; qkind; qarg; tgt; how] query (tgt = -1: execute_chooser; how = 0: 2.0-style
                          execute (shard as bind argument), 1: legacy Query (shard by set_shard; result
                          uniqued), 2: execute with the set_shard_id option)
                        L [I 6; k; tok] get | L [I 7; o] refresh
+                       L [I 8; pk; grp; val; tok] merge of a detached object with identity key (pk, tok)
                        object numbers are taken modulo the number of objects seen so far
    output  [run_full]: L [L per-op observations; I error code; L committed rows per shard]
            per op: L [ret; L writes (sorted); L shards read; L object states; L visible rows per shard]
@@ -101,12 +102,17 @@ Definition dec_op (st : sess) (t : tree) : option op :=
   | L [I 1; I o; I g; I v] => Some (OSet (obj_no st o) g v)
   | L [I 2] => Some OFlush
   | L [I 3] => Some OCommit
-  | L [I 4; I o] => Some (ODelete (obj_no st o))
+  | L [I 4; L os] =>
+      match all_some (map as_Z os) with
+      | Some zs => Some (ODelete (map (obj_no st) zs))
+      | None => None
+      end
   | L [I 5; I k; I a; I tg; I how] =>
       let q := if k =? 0 then QAll else if k =? 1 then QGrp a else if k =? 2 then QPk a else QValGe a in
       Some (OQuery q (opt_sid tg) (how =? 1))
   | L [I 6; I k; I tk] => Some (OGet k (opt_sid tk))
   | L [I 7; I o] => Some (ORefresh (obj_no st o))
+  | L [I 8; I a; I b; I c; I tk] => if tk <? 0 then None else Some (OMerge (mkRow a b c) (Z.to_N tk))
   | _ => None
   end.
 
